@@ -12,8 +12,8 @@ open V19 Csv
 
 /-! ## the codec: read (write rows) = rows, for ALL rows of ALL byte strings -/
 
-/-- Guards, explicitly: delimiter ≠ quote, neither is CR or LF, no escape option
-(`Opts.Good`); every record has at least one field.  No bound on the number of records, fields
+/-- Guards, explicitly: delimiter ≠ quote, neither is CR or LF (`Opts.Good`; ANY escape option
+since fix c296646 — the hypothesis "no escape option" is gone); every record has at least one field.  No bound on the number of records, fields
 or bytes; fields may contain delimiters, quotes, CR, LF, be empty, … -/
 theorem csv_codec_roundtrip (o : Opts) (g : o.Good) (rows : List (List Bytes))
     (h : ∀ r ∈ rows, r ≠ []) : readRecords o (writeCsv o rows) = rows :=
@@ -21,7 +21,7 @@ theorem csv_codec_roundtrip (o : Opts) (g : o.Good) (rows : List (List Bytes))
 
 example : readRecords {} (writeCsv {} [[[97, 44, 34, 10, 13], []], [[], [34]], [[]], [[], []]]) =
     [[[97, 44, 34, 10, 13], []], [[], [34]], [[]], [[], []]] :=
-  csv_codec_roundtrip {} ⟨by decide, by decide, by decide, rfl⟩ _ (by decide)
+  csv_codec_roundtrip {} ⟨by decide, by decide, by decide⟩ _ (by decide)
 
 /-- through `csv::Reader` (equal record lengths enforced, no header) -/
 theorem csv_reader_roundtrip (o : Opts) (g : o.Good) (hh : o.header = false) (n : Nat) (hn : 0 < n)
@@ -43,9 +43,8 @@ theorem csv_reader_roundtrip (o : Opts) (g : o.Good) (hh : o.header = false) (n 
     simp only [hall, if_true, hh]
     rfl
 
-/-- HEADER: `write_record` never writes a header line, `has_headers(true)` makes the reader
-swallow the first record — the first ROW is lost (known finding `csv:header-drops-first-row`) -/
-theorem csv_header_drops_first_row (o : Opts) (g : o.Good) (hh : o.header = true) (n : Nat)
+/-- the reader with HEADER returns the records after the first one -/
+theorem csv_header_drops_first_record (o : Opts) (g : o.Good) (hh : o.header = true) (n : Nat)
     (hn : 0 < n) (r0 : List Bytes) (rows : List (List Bytes)) (h : ∀ r ∈ r0 :: rows, r.length = n) :
     readCsv o (writeCsv o (r0 :: rows)) = some rows := by
   have hne : ∀ r ∈ r0 :: rows, r ≠ [] := by
@@ -60,6 +59,22 @@ theorem csv_header_drops_first_row (o : Opts) (g : o.Good) (hh : o.header = true
     simp [h1, h2]
   simp only [hall, if_true, hh]
   rfl
+
+/-- whole files, HEADER or not (fix 669035f: the writer emits the column-name record that the
+reader swallows): `readCsv (writeFile names rows) = rows` -/
+theorem csv_file_roundtrip (o : Opts) (g : o.Good) (n : Nat) (hn : 0 < n) (names : List Bytes)
+    (hnames : names.length = n) (rows : List (List Bytes)) (h : ∀ r ∈ rows, r.length = n) :
+    readCsv o (writeFile o names rows) = some rows := by
+  unfold writeFile
+  cases hh : o.header with
+  | false => simpa using csv_reader_roundtrip o g hh n hn rows h
+  | true =>
+    simp only [if_true]
+    have := csv_header_drops_first_record o g hh n hn names rows
+      (by intro r hr; simp only [List.mem_cons] at hr; rcases hr with hr | hr
+          · rw [hr]; exact hnames
+          · exact h r hr)
+    simpa [writeCsv] using this
 
 /-! ## tables -/
 
@@ -104,19 +119,20 @@ theorem tableOk_import (tys : List Ty) : ∀ (t : Table), (∀ row ∈ t, RowOk 
 
 /-- PROVED PART.  A table whose cells are all non-NULL, print to non-empty texts and survive
 `parse ∘ display` for their column type (C19: integers, booleans, non-empty strings, in-range
-dates, blobs without `\\`/`'`, …), with at least one column and no BLOB column, exported and
-imported with good options and no HEADER, comes back exactly (same rows, same order). -/
-theorem table_roundtrip_partial (o : Opts) (g : o.Good) (hh : o.header = false) (tys : List Ty)
-    (hcols : 0 < tys.length) (hblob : tys.contains .blob = false) (t : Table)
+dates, all blobs, …), with at least one column (BLOB columns included since the cast fix), exported and imported with good
+options — ANY escape, HEADER or not — comes back exactly (same rows, same order). -/
+theorem table_roundtrip_partial (o : Opts) (g : o.Good) (tys : List Ty) (names : List Bytes)
+    (hnames : names.length = tys.length)
+    (hcols : 0 < tys.length) (t : Table)
     (h : ∀ row ∈ t, RowOk tys row) :
-    ∃ file, exportTable o t = some file ∧ importCsv o tys file = .ok t := by
+    ∃ file, exportTable o names t = some file ∧ importCsv o tys file = .ok t := by
   obtain ⟨texts, h1, h2, h3⟩ := tableOk_import tys t h
-  refine ⟨writeCsv o texts, by simp [exportTable, h1], ?_⟩
+  refine ⟨writeFile o names texts, by simp [exportTable, h1], ?_⟩
   unfold importCsv
-  rw [csv_reader_roundtrip o g hh tys.length hcols texts h2]
-  simp only [h3, hblob, Bool.false_eq_true, false_and, if_false]
+  rw [csv_file_roundtrip o g tys.length hcols names hnames texts h2]
+  exact h3
 
-example : ∃ file, exportTable {} [[some (.i32 (-5)), some (.str [44, 34, 10])], [some (.i32 7), some (.str [78, 85, 76, 76])]] = some file ∧
+example : ∃ file, exportTable {} [[99, 48], [99, 49]] [[some (.i32 (-5)), some (.str [44, 34, 10])], [some (.i32 7), some (.str [78, 85, 76, 76])]] = some file ∧
     importCsv {} [.i32, .str] file = .ok [[some (.i32 (-5)), some (.str [44, 34, 10])], [some (.i32 7), some (.str [78, 85, 76, 76])]] :=
   ⟨_, rfl, by decide⟩
 
@@ -138,44 +154,48 @@ def rowHasTys : List Ty → List (Option DV) → Bool
 /-- FULL statement (property as written): for every option set, every column type list and
 every well-typed table (NULLs and empty strings included), import (export t) = t. -/
 def TableRoundtripFull : Prop :=
-  ∀ (o : Opts) (tys : List Ty) (t : Table), (t.all (rowHasTys tys)) = true →
-    ∀ file, exportTable o t = some file → importCsv o tys file = .ok t
+  ∀ (o : Opts) (tys : List Ty) (names : List Bytes) (t : Table), names.length = tys.length →
+    (t.all (rowHasTys tys)) = true →
+    ∀ file, exportTable o names t = some file → importCsv o tys file = .ok t
 
 /-- NULL is written as the four letters `NULL` and read back as the *string* `NULL`
 (known finding `csv:null-cell`) -/
 theorem null_cell_unsound : ¬ TableRoundtripFull := by
   intro h
-  have := h {} [.str] [[none]] (by decide) _ rfl
+  have := h {} [.str] [[99, 48]] [[none]] rfl (by decide) _ rfl
   revert this
   decide
 
 example : importCsv {} [.str] (writeCsv {} [[nullText]]) = .ok [[some (.str nullText)]] := by decide
 /-- … and as a parse error in a non-string column -/
-theorem null_cell_int_error : ∃ file, exportTable {} [[some (.i32 1)], [none]] = some file ∧
+theorem null_cell_int_error : ∃ file, exportTable {} [[99, 48]] [[some (.i32 1)], [none]] = some file ∧
     importCsv {} [.i32] file = .error := ⟨_, rfl, by decide⟩
 
 /-- the empty string is written as `""` and read back as NULL (known finding `csv:empty-string`) -/
-theorem empty_string_unsound : ∃ file, exportTable {} [[some (.str [])]] = some file ∧
+theorem empty_string_unsound : ∃ file, exportTable {} [[99, 48]] [[some (.str [])]] = some file ∧
     importCsv {} [.str] file = .ok [[none]] := ⟨_, rfl, by decide⟩
 
 /-- the zero interval prints as the empty text and comes back as NULL
 (known finding `csv:empty-interval`) -/
-theorem zero_interval_unsound : ∃ file, exportTable {} [[some (.interval 0 0 0)]] = some file ∧
+theorem zero_interval_unsound : ∃ file, exportTable {} [[99, 48]] [[some (.interval 0 0 0)]] = some file ∧
     importCsv {} [.interval] file = .ok [[none]] := ⟨_, rfl, by decide⟩
 
-/-- with `ESCAPE '!'` the writer still doubles quotes and leaves `!` alone, the reader treats `!`
-inside a quoted field as an escape: `a!,` comes back as `a,` (known finding `csv:escape-option`) -/
-theorem escape_option_unsound :
-    readRecords { escape := some 33 } (writeCsv { escape := some 33 } [[[97, 33, 44]]]) = [[[97, 44]]] := by
+/-- REGRESSION (was `escape_option_unsound`, finding `csv:escape-option`, fixed by c296646): with
+`ESCAPE '!'` the field `a!,"` is written `"a!!,!""` and read back unchanged -/
+theorem escape_option_regression :
+    readRecords { escape := some 33 } (writeCsv { escape := some 33 } [[[97, 33, 44, 34]]]) = [[[97, 33, 44, 34]]] ∧
+    writeCsv { escape := some 33 } [[[97, 33, 44, 34]]] = [34, 97, 33, 33, 44, 33, 34, 34, 10] := by
   decide
 
-/-- any non-empty import into a table with a BLOB column inserts nothing (`cast` of a Blob array
-is `todo!()`; known finding `csv:blob-column-import`) -/
-theorem blob_column_unsound : ∃ file, exportTable {} [[some (.blob [65])]] = some file ∧
-    importCsv {} [.blob] file = .ok [] := ⟨_, rfl, by decide⟩
+/-- REGRESSION (was `blob_column_unsound`, finding `csv:blob-column-import`): a table with a BLOB
+column imports its rows (`ArrayImpl::cast` has Blob arms now), blobs with `\` and `'` included -/
+theorem blob_column_regression : ∃ file, exportTable {} [[99, 48]] [[some (.blob [65, 92, 39, 0])]] = some file ∧
+    importCsv {} [.blob] file = .ok [[some (.blob [65, 92, 39, 0])]] := ⟨_, rfl, by decide⟩
 
-/-- HEADER true loses the first row (model-level witness of `csv_header_drops_first_row`) -/
-theorem header_unsound : ∃ file, exportTable { header := true } [[some (.i32 1)], [some (.i32 2)]] = some file ∧
-    importCsv { header := true } [.i32] file = .ok [[some (.i32 2)]] := ⟨_, rfl, by decide⟩
+/-- REGRESSION (was `header_unsound`, finding `csv:header-drops-first-row`, fixed by 669035f):
+with HEADER both rows come back; the file starts with the column-name record -/
+theorem header_regression : ∃ file, exportTable { header := true } [[99, 48]] [[some (.i32 1)], [some (.i32 2)]] = some file ∧
+    file = [99, 48, 10, 49, 10, 50, 10] ∧
+    importCsv { header := true } [.i32] file = .ok [[some (.i32 1)], [some (.i32 2)]] := ⟨_, rfl, by decide, by decide⟩
 
 end RlModel
